@@ -150,6 +150,7 @@ func (k *Case) runOrder() (out string) {
 	first := make([]string, len(o.AuthorizationIDs))
 	azs := make([]string, len(o.AuthorizationIDs))
 	viol := ""
+	trimmed := false
 	if len(o.AuthorizationIDs) != len(k.IDs) || o.AccountID != acc.ID || o.Status != acme.StatusPending {
 		viol = " VIOL:order-record"
 	}
@@ -175,17 +176,30 @@ func (k *Case) runOrder() (out string) {
 		}
 		azs[i] = typCode(string(az.Identifier.Type)) + "~" + c.X(az.Identifier.Value) + "~" + c.B(az.Wildcard) + "~" + chs.String()
 		// the property predicate on the stored records: the authorization named for identifier i
-		// is of its type, for its name (ASCII case aside), with its wildcard flag, of this account, pending
+		// is of its type, for its name (ASCII case aside), of this account, pending; only a dns name has a
+		// wildcard form (`*.x` needs an authorization for x flagged wildcard and restricted to dns-01); an
+		// identifier of any other type needs an authorization for its value as it is
 		if i < len(k.IDs) {
 			id := k.IDs[i]
-			wild := strings.HasPrefix(id.V, "*.")
-			if string(az.Identifier.Type) != id.T || az.Wildcard != wild ||
-				asciiLower(az.Identifier.Value) != asciiLower(strings.TrimPrefix(id.V, "*.")) ||
-				az.AccountID != acc.ID || az.Status != acme.StatusPending ||
-				(wild && id.T == "dns" && chs.String() != "d" && chs.String() != "") {
+			wild := id.T == "dns" && strings.HasPrefix(id.V, "*.")
+			want := id.V
+			if wild {
+				want = id.V[2:]
+			}
+			switch {
+			case string(az.Identifier.Type) == id.T && az.Wildcard == wild && asciiLower(az.Identifier.Value) == asciiLower(want) &&
+				az.AccountID == acc.ID && az.Status == acme.StatusPending && !(wild && chs.String() != "d" && chs.String() != ""):
+			case id.T != "dns" && strings.HasPrefix(id.V, "*.") && string(az.Identifier.Type) == id.T && az.Wildcard &&
+				az.Identifier.Value == id.V[2:] && az.AccountID == acc.ID && az.Status == acme.StatusPending:
+				// C13-F4: the `*.` was trimmed from an identifier that is not a dns name
+				trimmed = true
+			default:
 				viol = " VIOL:identifier-without-own-authorization"
 			}
 		}
+	}
+	if viol == "" && trimmed {
+		viol = " VIOL:wildcard-prefix-trimmed-from-non-dns-identifier"
 	}
 	return "created:" + strings.Join(first, ".") + ":" + strings.Join(azs, "|") + viol
 }
@@ -250,6 +264,7 @@ func cornerOrd() []*Case {
 		{Kind: "ord", En: "hdt", IDs: []ID{d("a.example.com"), d("A.Example.COM"), d("a.example.com")}},
 		{Kind: "ord", En: "hdt", IDs: []ID{{"ip", "10.0.0.1"}, {"ip", "::ffff:10.0.0.1"}, d("host.local")}},
 		{Kind: "ord", En: "hdta", IDs: []ID{{"permanent-identifier", "device-1234"}, d("*.example.com")}},
+		{Kind: "ord", En: "hdta", IDs: []ID{{"permanent-identifier", "*.device-1234"}}}, // C13-F4
 		{Kind: "ord", En: "d", IDs: []ID{{"ip", "10.0.0.1"}, d("example.com")}},
 		{Kind: "ord", En: "hdt", IDs: nil},
 	}
